@@ -41,6 +41,18 @@ CHECKS = {
         text="Generated consistent delegation trees (mixed glue, in/out-of-bailiwick nameservers, v4/v6/dual hosts, cross-zone aliases, wildcards, empty non-terminals) are served by mock authoritative servers whose behaviour is computed from the universe by R-ZONE; sessions of 1..6 questions sharing a cache must each return exactly the ground-truth alias chain and final RRset (or the SOA for NODATA/NXDOMAIN), and the servers asked for a question never get shallower.",
         note="UNIVERSE server model and ground truth (harness/src/universe.rs) are trusted; time is tokio's paused clock and the frozen H1 cache clock; nameserver order is RandomState-dependent.",
         ref="DESIGN.md §4 C07, Appendix C"),
+    "C08": dict(
+        level="fault_enumeration",
+        technique=PBT + "; fault injection through a mock transport on tokio's paused clock: generated fault plans plus exhaustive enumeration of all fault assignments to the first exchanges of a fixed resolution",
+        text="Per-exchange faults (drop, delays around the 5 s and 60 s limits, garbage, truncation, wrong ID, TC, error rcodes, altered question, transport failure, QR clear) and structural faults (lame servers, circular and upward referrals, withheld glue, unresolvable nameserver sets, alias loops in zones and cache, over-long chains) are injected into recursive and forwarding resolutions; each must return within 60 s of virtual time, abandon every exchange within 5 s, never panic, and return only records that a delivered reply, the hints or the pre-seeded cache supplied. All 16^2 (quick) / 16^3 (thorough) fault assignments to the first exchanges of a three-level resolution are enumerated in both modes.",
+        note="Virtual time only: a real-time hang surfaces as the wall-clock budget (exit 2). The UDP receive path is mirrored inside the transport hook.",
+        ref="DESIGN.md §4 C08"),
+    "C10": dict(
+        level="exploration",
+        technique=PBT + "; generated alias graphs with links placed in zones, cache, upstream and forwarder; order/ownership/tag oracle plus completeness for obtainable acyclic chains",
+        text="Alias chains of 0..40 links with each link in an authoritative zone, the non-authoritative zone, the cache, an upstream server or the forwarder, optional cycles and four kinds of chain end are resolved in local-only, recursive and forwarding mode; the answer must be a prefix of the real chain in order followed only by records of the asked type at the final target, nothing twice, complete for acyclic chains of at most 24 obtainable links ending in data, and cycles / over-long chains must end in an error or prefix within the time budget on a 2 MiB stack.",
+        note="Upstream replies list chains in chain order (D3); CNAME/ANY questions excluded (D4).",
+        ref="DESIGN.md §4 C10"),
     "C11": dict(
         level="exploration",
         technique=PBT + "; grammar-based generation: a denotation is rendered through every optional-field/layout/quoting/escaping variant, parse result compared with the denotation; single-fault corruptions must be rejected",
@@ -84,6 +96,13 @@ CHECKS = {
         note="The well-formedness predicate and the reference validity rules in harness/src/props/c16.rs are trusted.",
         ref="DESIGN.md §4 C16"),
 }
+
+CHECKS["C18"] = dict(
+    level="exploration",
+    technique=PBT + "; invariant over the transport log of generated universes, judged by the mock at the instant of each exchange (cache inspected through hook H4)",
+    text="In generated universes with v4-only, v6-only and dual nameserver hosts, sessions of questions run in all four protocol modes with the default or a random upstream port, and in forwarding mode; every exchange must go to the configured port, to the permitted family, never to a non-preferred address of a host while the hints or the cache hold a preferred-family address for it, the resolver's own address look-ups must ask for the preferred family first, and in forwarding mode every exchange goes to the forwarder.",
+    note="Which host an address belongs to is known from the universe (one address per family and host).",
+    ref="DESIGN.md §4 C18")
 
 NOT_YET = {}
 
